@@ -92,6 +92,25 @@ func runD(t *vlib.T) {
 					}
 					return verdict("D", src, ctx, got, want, dep, fmt.Sprintf("D:%s:len%d:dep%v", form, len(s), dep))
 				})
+				// round 4: the three variables start as engine globals (layer g: AddGlobal, empty context)
+				// or exist in both places (layer b: globals hold decoys, the context the start values)
+				for _, layer := range []string{"g", "b"} {
+					layer := layer
+					t.Case("D/"+layer+key[1:], func() *vlib.Outcome {
+						src, want, dep := dCase(s, form)
+						globals := map[string]interface{}{"a": 0, "b": "", "c": "-"}
+						ctx := map[string]interface{}{}
+						if layer == "b" {
+							ctx = globals
+							globals = map[string]interface{}{"a": 70, "b": "G", "c": "H"}
+						}
+						got := hRender(globals, ctx, nil, src)
+						if form == "do" && strings.HasPrefix(got, "PARSE-ERROR") {
+							return &vlib.Outcome{Class: "D:do:rejected-by-parser"}
+						}
+						return hVerdict("D", src, nil, globals, ctx, got, want, dep, fmt.Sprintf("D:%s:%s:len%d:dep%v", layer, form, len(s), dep))
+					})
+				}
 			}
 		}
 		rec(nil)
